@@ -489,3 +489,44 @@ def obs_term(case, st, val):
         return 'None'
     rows = '[' + '; '.join(f'({C.zlit(a)}, {C.zlist(b)})' for a, b in val['rows']) + ']'
     return f'(Some ({C.zlist(val["image"])}, {rows}))'
+
+
+def cli_args(case, isa, paths, incdirs, out, extra=None):
+    o = case['opts']
+    args = [C.PY, '-m', 'bespokeasm', 'compile', paths[0], '-c', isa, '-o', out]
+    if o['start'] != 0 or case.get('explicit_start'):
+        args += ['-s', str(o['start'])]
+    if o['end'] is not None:
+        args += ['-e', str(o['end'])]
+    if o['fill'] != 0:
+        args += ['-f', str(o['fill'])]
+    for d in incdirs:
+        args += ['-I', d]
+    for n, v in case['cfg']['cli']:
+        args += ['-D', f'{n}={v}' if v != '' else n]
+    return args + (extra or [])
+
+
+def impl_cli(case):
+    """the real command line (python -m bespokeasm compile ...) as a subprocess; returns the image only"""
+    import subprocess
+    td = tempfile.mkdtemp(prefix='vf_cli_')
+    try:
+        isa, paths, incdirs = write_case(case, td)
+        out = os.path.join(td, 'out.bin')
+        p = subprocess.run(cli_args(case, isa, paths, incdirs, out), capture_output=True, text=True, timeout=60,
+                           env=C.impl_env(), cwd=td)
+        if p.returncode != 0:
+            raise SystemExit(f'exit status {p.returncode}: {p.stderr[-200:]}')
+        if not os.path.exists(out):
+            raise SystemExit('success reported but no image written')
+        with open(out, 'rb') as f:
+            return {'image': list(f.read()), 'rows': []}
+    finally:
+        shutil.rmtree(td, ignore_errors=True)
+
+
+def obs_term_image_only(case, st, val):
+    if st != 'ok':
+        return 'None'
+    return f'(Some ({C.zlist(val["image"])}, ([] : list (Z * list Z))))'
